@@ -76,3 +76,39 @@ def ckkF (v nm : α → Nat) [BEq α] (k : Nat) (contents : Bool) (items : List 
   | some b => .ok b.sortAsc
 
 end Prtpy
+
+/-! ### the search of `optimal` with its trace
+
+`ckkRunFT` is `ckkRunF` carrying one more accumulator: for every heap popped from the stack, its number of bins-arrays,
+the sorted list of all their sums, and the value `_possible_partition_difference_lower_bound` computes for it — what the
+harness records on the implementation by wrapping that function.  `CKKF.ckkRunFT_fst` (PrtpyProofs/CKKF.lean … CKKFTrace.lean)
+proves that dropping the trace gives `ckkRunF`. -/
+namespace Prtpy
+variable {α : Type}
+
+abbrev CkkTrace := List (Nat × List Nat × Option Int)
+
+def ckkTraceEntry (h : Heap α) (k : Nat) : Nat × List Nat × Option Int :=
+  (h.length, sortAsc id (h.flatMap (·.bins.sums)), ckkBound h k)
+
+def ckkRunFT (nm : α → Nat) [BEq α] (k : Nat) (contents : Bool) : Nat → CkkState α → CkkTrace → CkkState α × CkkTrace
+  | 0, s, tr => (s, tr)
+  | fuel + 1, s, tr =>
+    if s.done then (s, tr)
+    else
+      let tr' := match s.stack with
+        | [] => tr
+        | h :: _ => tr ++ [ckkTraceEntry h k]
+      ckkRunFT nm k contents fuel (ckkStepF nm k contents s) tr'
+
+/-- `optimal` after F11 together with the trace of its search -/
+def ckkFT (v nm : α → Nat) [BEq α] (k : Nat) (contents : Bool) (items : List α) (fuel : Nat) :
+    Except Err (Bins α) × CkkTrace :=
+  let r := ckkRunFT nm k contents fuel (ckkInit v k items .negInf) []
+  let s := r.1
+  (if !s.done then .error .fuel else
+   match s.bestP with
+   | none => .error .indexError
+   | some b => .ok b.sortAsc, r.2)
+
+end Prtpy
